@@ -57,6 +57,9 @@ type Exec struct {
 	inInit     bool
 	initHeaps  map[string]*Term
 	initFacts  []*Term
+	initMem    map[*Object]Value
+	initAlloc  int64
+	initBoxes  map[int64]Value
 
 	Findings   map[string]*Finding
 	regexps    map[int64]string
@@ -68,6 +71,7 @@ type Exec struct {
 	MaxInline   int
 	OverflowChk bool
 	Verbose     bool
+	Merge       bool
 }
 
 type funcRun struct {
@@ -84,6 +88,9 @@ type funcRun struct {
 	trustedUsed map[string]bool
 	siteIDs    map[*ssa.Function]map[ssa.Instruction]int
 	reachedReturn int
+	merges int
+	allocObjs map[string]*Object
+	strLens   map[Key]int64
 	ensuresAnteReached map[string]bool
 }
 
@@ -98,7 +105,7 @@ func NewExec(prog *ssa.Program, module string, spec *SpecDB, contracts map[strin
 		Prog: prog, ModulePath: module, Spec: spec, Contracts: contracts,
 		typeIDs: map[string]int{}, typeByID: map[int]types.Type{}, namedCache: map[string]types.Type{},
 		strLits: map[string]*Term{}, FuncByKey: map[string]*ssa.Function{},
-		MaxPaths: 20000, MaxUnroll: 80, MaxInline: 6, OverflowChk: true,
+		MaxPaths: 20000, MaxUnroll: 40, MaxInline: 6, OverflowChk: true, Merge: true,
 	}
 	ex.Prelude = &Prelude{DB: spec, Defs: map[string]*DefFun{}, StrLits: map[string]string{}, BoxFacts: map[string][]*Term{}}
 	return ex
@@ -202,6 +209,8 @@ type Frame struct {
 	visits map[*ssa.BasicBlock]int
 	callInstr ssa.Instruction // in the caller frame: the call instruction awaiting the result
 	runningDefers bool
+	allocCount map[ssa.Instruction]int
+	instance  int
 	pendingRet []Value
 	returning bool
 	deferResume int
@@ -209,13 +218,13 @@ type Frame struct {
 
 type State struct {
 	pc      []*Term
-	pcSeen  map[string]bool
+	seen    *seenSet
 	frames  []*Frame
 	mem     map[*Object]Value
 	heaps   map[string]*Term
 	alloc   *Term
 	freshRefs []*Term
-	decided map[string]bool
+	decided map[Key]bool
 	ifaceRes map[*VIface]int
 	ghost   map[string]Value
 	boxes   map[int64]Value
@@ -226,21 +235,24 @@ type State struct {
 	paramVals map[string]Value
 	results  []Value
 	impls    []*Term
+	released bool
+	steps    int
 	id int
 }
 
 func (st *State) clone() *State {
 	n := &State{
-		pc: append([]*Term(nil), st.pc...), pcSeen: map[string]bool{},
+		pc: append([]*Term(nil), st.pc...),
 		mem: map[*Object]Value{}, heaps: map[string]*Term{}, alloc: st.alloc,
 		freshRefs: append([]*Term(nil), st.freshRefs...),
-		decided: map[string]bool{}, ifaceRes: map[*VIface]int{}, ghost: map[string]Value{},
+		decided: map[Key]bool{}, ifaceRes: map[*VIface]int{}, ghost: map[string]Value{},
 		boxes: st.boxes, nbox: st.nbox, entry: st.entry, alloc0: st.alloc0, paramVals: st.paramVals,
 		impls: append([]*Term(nil), st.impls...),
+		steps: st.steps,
 	}
-	for k, v := range st.pcSeen {
-		n.pcSeen[k] = v
-	}
+	frozen := st.seen
+	st.seen = newSeen(frozen)
+	n.seen = newSeen(frozen)
 	for k, v := range st.mem {
 		n.mem[k] = v
 	}
@@ -266,6 +278,12 @@ func (st *State) clone() *State {
 		for k, v := range f.visits {
 			nf.visits[k] = v
 		}
+		if f.allocCount != nil {
+			nf.allocCount = map[ssa.Instruction]int{}
+			for k, v := range f.allocCount {
+				nf.allocCount[k] = v
+			}
+		}
 		nf.defers = append([]deferred(nil), f.defers...)
 		nf.loops = append([]*loopCtx(nil), f.loops...)
 		nf.pendingRet = append([]Value(nil), f.pendingRet...)
@@ -284,14 +302,17 @@ func (st *State) assume(t *Term) {
 		}
 		return
 	}
-	s := t.String()
-	if st.pcSeen[s] {
+	k := t.Key()
+	if st.seen.Has(k) {
 		return
 	}
-	st.pcSeen[s] = true
+	st.seen.Add(k)
 	st.pc = append(st.pc, t)
 	// light forward chaining: a => b with a known gives b
 	if t.Op == "=>" {
+		if a := t.Args[0]; a.Op == "var" && strings.HasPrefix(a.Name, "path!") {
+			return // path selectors of merged states are never asserted
+		}
 		if st.knows(t.Args[0]) {
 			st.assume(t.Args[1])
 		} else {
@@ -329,7 +350,7 @@ func (st *State) knows(t *Term) bool {
 		}
 		return true
 	}
-	return st.pcSeen[t.String()]
+	return st.seen.Has(t.Key())
 }
 
 func (st *State) top() *Frame { return st.frames[len(st.frames)-1] }
@@ -348,6 +369,9 @@ func (st *State) heap(key string, s Sort) *Term {
 
 type splitRequest struct{ states []*State }
 
+// DebugSplits, when non-nil, counts case splits by condition (development aid).
+var DebugSplits map[string]int
+
 // decide returns the truth value of cond on this path, splitting the path if it
 // is not already decided.
 func (ex *Exec) decide(st *State, cond *Term) bool {
@@ -357,15 +381,22 @@ func (ex *Exec) decide(st *State, cond *Term) bool {
 	if cond.IsFalse() {
 		return false
 	}
-	key := cond.String()
+	key := cond.Key()
 	if v, ok := st.decided[key]; ok {
 		return v
 	}
-	if st.pcSeen[key] {
+	if st.seen.Has(key) {
 		return true
 	}
-	if st.pcSeen[Not(cond).String()] {
+	if st.seen.Has(Not(cond).Key()) {
 		return false
+	}
+	if DebugSplits != nil {
+		k := cond.String()
+		if len(k) > 140 {
+			k = k[:140]
+		}
+		DebugSplits[k]++
 	}
 	a := st.clone()
 	a.decided[key] = true
@@ -548,12 +579,18 @@ func (ex *Exec) load(st *State, p *VPtr, instr ssa.Instruction) Value {
 	if p.Obj != nil {
 		v, ok := st.mem[p.Obj]
 		if !ok {
-			panic("load: object without content: " + p.Obj.Name)
+			if iv, ok2 := ex.initMem[p.Obj]; ok2 {
+				st.mem[p.Obj] = iv
+				v = iv
+			} else {
+				panic("load: object without content: " + p.Obj.Name)
+			}
 		}
 		return ex.loadPath(v, p.Path)
 	}
 	if p.ElemRef != nil {
-		return ex.heapLoad(st, p.ElemT, p.ElemRef, p.ElemIdx)
+		v := ex.heapLoad(st, p.ElemT, p.ElemRef, p.ElemIdx)
+		return ex.loadPath(v, p.Path)
 	}
 	// only nil possible: unreachable after the check
 	return ex.zeroValue(p.T)
@@ -562,11 +599,20 @@ func (ex *Exec) load(st *State, p *VPtr, instr ssa.Instruction) Value {
 func (ex *Exec) store(st *State, p *VPtr, v Value, instr ssa.Instruction) {
 	ex.check(st, "nil", instr, Not(p.Nil), "nil pointer dereference")
 	if p.Obj != nil {
+		if _, ok := st.mem[p.Obj]; !ok {
+			if iv, ok2 := ex.initMem[p.Obj]; ok2 {
+				st.mem[p.Obj] = iv
+			}
+		}
 		st.mem[p.Obj] = ex.storePath(st.mem[p.Obj], p.Path, v)
 		return
 	}
 	if p.ElemRef != nil {
 		ex.checkWritable(st, p.ElemRef, instr)
+		if len(p.Path) > 0 {
+			cur := ex.heapLoad(st, p.ElemT, p.ElemRef, p.ElemIdx)
+			v = ex.storePath(cur, p.Path, v)
+		}
 		ex.heapStore(st, p.ElemT, p.ElemRef, p.ElemIdx, v)
 	}
 }
@@ -770,6 +816,22 @@ func (ex *Exec) unflatten(st *State, t types.Type, vals []*Term, pos *int) Value
 			if id == 0 {
 				return ex.zeroValue(t)
 			}
+		}
+		if pt, ok := u.(*types.Pointer); ok {
+			// a pointer read from a symbolic heap location: an unknown object of its own
+			// (assumption: not aliased with objects the function otherwise knows)
+			if _, isArr := pt.Elem().Underlying().(*types.Array); !isArr {
+				obj := ex.newObject("heapptr", pt.Elem(), false)
+				nm := ex.fresh("heapptr", SInt).Name
+				st.mem[obj] = ex.symbolicValueSafe(st, pt.Elem(), nm)
+				return &VPtr{Nil: Eq(b, IntLit(0)), Obj: obj, T: pt.Elem()}
+			}
+		}
+		if _, ok := u.(*types.Signature); ok {
+			return &VFunc{Sym: ex.fresh("heapfn", SInt).Name, Nil: Eq(b, IntLit(0))}
+		}
+		if _, ok := u.(*types.Chan); ok {
+			return &VOpaque{T: t, ID: b}
 		}
 		ex.unsupported("load of a pointer/func value from a symbolic heap location (type %s)", t)
 	}
